@@ -21,6 +21,7 @@ _TREES = [
     ("l", None, [("i", 0), ("l", None, [("l", None, [("i", 1), ("i", 2)])])]),   # unnamed array of records -> DATA
     ("l", None, [("i", 0), ("l", "DS", [("l", None, [("i", 1), ("l", "DV", [("l", None, [("i", 2), ("i", 3)])])])])]),  # S6F8
     ("l", None, [("l", "A1", [("i", 0), ("i", 1)]), ("l", "B1", [("i", 2), ("i", 3)])]),   # named nested records
+    ("l", None, [("i", 0), ("l", "Reports", [("l", None, [("i", 1), ("i", 2)])]), ("l", "sample_points", [("i", 3), ("i", 4)])]),  # names as written
 ]
 
 
@@ -80,7 +81,7 @@ _GAPS = ["", " ", "\n", "\t ", " \r\n", "#c\n", " # <L> x >\n", "#\r", "# < MDLN
 
 def documented_shape(tree: int, base: int, g0: int, g1: int, g2: int) -> bool:
     """
-    pre: 0 <= tree < 10 and 0 <= base < 8
+    pre: 0 <= tree < 11 and 0 <= base < 8
     pre: 0 <= g0 < 10 and 0 <= g1 < 10 and 0 <= g2 < 10
     post: _
     """
@@ -167,7 +168,7 @@ def short_text(idx: List[int]) -> bool:
 
 def truncated(tree: int, base: int, cut: int, bad: bool) -> bool:
     """
-    pre: 0 <= tree < 10 and 0 <= base < 8
+    pre: 0 <= tree < 11 and 0 <= base < 8
     pre: 0 <= cut <= 120
     post: _
     """
@@ -192,7 +193,7 @@ def truncated(tree: int, base: int, cut: int, bad: bool) -> bool:
 
 def after_history(tree: int, base: int, g0: int, g1: int) -> bool:
     """
-    pre: 0 <= tree < 10 and 0 <= base < 8
+    pre: 0 <= tree < 11 and 0 <= base < 8
     pre: 0 <= g0 < 10 and 0 <= g1 < 10
     post: _
     """
@@ -225,11 +226,11 @@ def _open(fid):
 
 OBLIGATIONS = [
     dict(name="documented_shape", fn="documented_shape", timeout=900,
-         parts={"quick": ["tree == %d and base == %d and g2 == 0" % (i, (3 * i) % 8) for i in range(10) if i != 6 or not _open("C19-named-open-list")],
-                "thorough": ["tree == %d and base == %d" % (i, b) for i in range(10) for b in range(8) if i != 6 or not _open("C19-named-open-list")]},
+         parts={"quick": ["tree == %d and base == %d and g2 == 0" % (i, (3 * i) % 8) for i in range(11) if i != 6 or not _open("C19-named-open-list")],
+                "thorough": ["tree == %d and base == %d" % (i, b) for i in range(11) for b in range(8) if i != 6 or not _open("C19-named-open-list")]},
          functions=["variables.functions.generate/_generate_from_sfdl/_generate_item_from_sfdl", "SFDLTokenizer.parse_all/_process_tokens",
                     "List._generate key derivation", "Array.__init__ naming"],
-         bounds="10 definition trees from the documented grammar (items, open arrays, records, nesting depth <= 5, named and unnamed "
+         bounds="11 definition trees from the documented grammar (items, open arrays, records, nesting depth <= 5, named and unnamed "
                 "nested lists), item names rotated through 8 catalogue names (symbolic base), three gap choices out of 10 gap texts "
                 "(whitespace incl. tab/CR/LF, comments with arbitrary content incl. brackets and item names, closed by LF or CR) at "
                 "rotating positions: quick 10 trees x 100 gap pairs with one name rotation each, thorough 10 x 8 x 1000 definitions, the solver steers the choices (the tokenizer reads its input "
@@ -238,8 +239,8 @@ OBLIGATIONS = [
          outside="other gap texts; trees beyond the 10 shapes",
          findings=[dict(id="C19-named-open-list", pred="tree == 6")]),
     dict(name="after_history", fn="after_history", timeout=600,
-         parts={"quick": ["tree == %d and base == %d" % (i, (3 * i) % 8) for i in range(10) if i != 6 or not _open("C19-named-open-list")],
-                "thorough": ["tree == %d" % i for i in range(10) if i != 6 or not _open("C19-named-open-list")]},
+         parts={"quick": ["tree == %d and base == %d" % (i, (3 * i) % 8) for i in range(11) if i != 6 or not _open("C19-named-open-list")],
+                "thorough": ["tree == %d" % i for i in range(11) if i != 6 or not _open("C19-named-open-list")]},
          functions=["generate called twice in one process (no state may leak between definitions)"],
          bounds="10 trees x 8 name rotations x 100 gap pairs: the definition, then the same text with every line break turned into a "
                 "space; the second reading must agree with the reference tokenizer's verdict on that text alone"),
@@ -251,7 +252,7 @@ OBLIGATIONS = [
          bounds="every text of 1..4 (thorough: 5 starting with '<') symbols over < > L space # newline M D and the unit token MDLN: "
                 "accepted only if the reference tokenizer sees the first item closed and only known names",
          outside="longer texts"),
-    dict(name="truncated", fn="truncated", timeout=600, parts=["tree == %d" % i for i in range(10)],
+    dict(name="truncated", fn="truncated", timeout=600, parts=["tree == %d" % i for i in range(11)],
          functions=["generate on truncated / renamed definitions"],
          bounds="every proper prefix of the 10 rendered definitions (8 name rotations) and an unknown item name substituted"),
 ]
